@@ -6,7 +6,8 @@ from .common import universal, table, chunks
 LEVEL = 'exploration'
 
 LEAVES = ["a = 1", "a <> 1", "a < b", "a IS NULL", "a IS NOT NULL", "a IN (1, 2)", "a IN (1, NULL)",
-          "a NOT IN (1, NULL)", "a BETWEEN 1 AND b", "a NOT BETWEEN b AND 2", "s LIKE 'a%'", "s NOT LIKE '_b'"]
+          "a NOT IN (1, NULL)", "a BETWEEN 1 AND b", "a NOT BETWEEN b AND 2", "s LIKE 'a%'", "s NOT LIKE '_b'",
+          "s IN ('a', NULL)", "s NOT IN ('ab', NULL)", "s IN ('a', 'x')", "s = 'a'", "b IN (a, 2)"]
 
 
 def trees(depth):
